@@ -14,7 +14,7 @@ fn rnd(rng: &mut impl RngCore, n: usize) -> Vec<u8> {
 }
 
 fn base() -> Value {
-    json!({"kind": "", "case": {"rp": "none", "ctr": "none", "flags": [], "at": false, "idlen": 0, "ext": "none"},
+    json!({"kind": "", "case": {"rp": "none", "ctr": "none", "flags": [], "at": false, "idlen": 0, "ext": "none", "key": "plain"},
            "crash": false, "wf": false, "hashok": false, "flagbyte": 0, "ctrok": false, "atpresent": false, "edpresent": false,
            "aaguidok": false, "idlen": 0, "idok": false, "keyok": false, "keylen": 0, "extok": false, "extlen": 0, "total": 0,
            "rt": "none", "cut": 0, "res": "none", "byte": 0})
@@ -60,8 +60,15 @@ fn build(case: &Value, rng: &mut impl RngCore) -> Option<Built> {
     let sk = p256::SecretKey::random(&mut rand::thread_rng());
     let pk = p256::ecdsa::SigningKey::from(&sk).verifying_key().to_encoded_point(false);
     let key = coset::CoseKeyBuilder::new_ec2_pub_key(coset::iana::EllipticCurve::P_256, pk.x().unwrap().to_vec(), pk.y().unwrap().to_vec())
-        .algorithm(coset::iana::Algorithm::ES256)
-        .build();
+        .algorithm(coset::iana::Algorithm::ES256);
+    // an EC2 key may carry the optional common parameters of a COSE key
+    let key = match case["key"].as_str().unwrap_or("plain") {
+        "kid" => key.key_id(rnd(rng, 9)),
+        "ops" => key.add_key_op(coset::iana::KeyOperation::Verify),
+        "iv" => key.base_iv(rnd(rng, 12)),
+        _ => key,
+    }
+    .build();
     if case["at"].as_bool().unwrap() {
         v = v.set_attested_credential_data(AttestedCredentialData::new(Aaguid(aaguid), id.clone(), key.clone()).ok()?);
     }
@@ -71,6 +78,27 @@ fn build(case: &Value, rng: &mut impl RngCore) -> Option<Built> {
             .ok()?,
         "ga-bytes" => v
             .set_assertion_extensions(Some(get_assertion::SignedExtensionOutputs { hmac_secret: Some(rnd(rng, 64).into()) }))
+            .ok()?,
+        // the setters called more than once: whatever the second call means, the ED bit must describe the result
+        "mc-then-none" => v
+            .set_make_credential_extensions(Some(make_credential::SignedExtensionOutputs { hmac_secret: Some(true), hmac_secret_mc: None }))
+            .ok()?
+            .set_make_credential_extensions(None)
+            .ok()?,
+        "ga-then-empty" => v
+            .set_assertion_extensions(Some(get_assertion::SignedExtensionOutputs { hmac_secret: Some(rnd(rng, 64).into()) }))
+            .ok()?
+            .set_assertion_extensions(Some(get_assertion::SignedExtensionOutputs { hmac_secret: None }))
+            .ok()?,
+        "mc-then-ga" => v
+            .set_make_credential_extensions(Some(make_credential::SignedExtensionOutputs { hmac_secret: Some(true), hmac_secret_mc: None }))
+            .ok()?
+            .set_assertion_extensions(Some(get_assertion::SignedExtensionOutputs { hmac_secret: Some(rnd(rng, 64).into()) }))
+            .ok()?,
+        "none-then-mc" => v
+            .set_assertion_extensions(None)
+            .ok()?
+            .set_make_credential_extensions(Some(make_credential::SignedExtensionOutputs { hmac_secret: Some(true), hmac_secret_mc: None }))
             .ok()?,
         _ => v,
     };
@@ -124,13 +152,19 @@ pub fn main(args: &Args) {
                 let want = rp::cose_info(&at.cose);
                 let x = b.key.params.iter().find(|(k, _)| *k == coset::Label::Int(-2)).and_then(|(_, v)| v.as_bytes().cloned());
                 let y = b.key.params.iter().find(|(k, _)| *k == coset::Label::Int(-3)).and_then(|(_, v)| v.as_bytes().cloned());
-                e["keyok"] = json!(want.map(|c| c.x == x && c.y == y && c.kty == Some(2) && c.alg == Some(-7) && c.crv == Some(1) && c.labels == vec![-3, -2, -1, 1, 3]).unwrap_or(false));
+                // ... and, member for member, the key as given (optional common parameters included)
+                let whole = <coset::CoseKey as coset::CborSerializable>::from_slice(&at.cose_bytes).map(|k| k == b.key).unwrap_or(false);
+                let plain = case["key"].as_str().unwrap_or("plain") == "plain";
+                e["keyok"] = json!(whole && want.map(|c| c.x == x && c.y == y && c.kty == Some(2) && c.alg == Some(-7) && c.crv == Some(1)
+                    && (!plain || c.labels == vec![-3, -2, -1, 1, 3])).unwrap_or(false));
             }
             if let Some(ext) = &ad.ext {
                 e["extlen"] = json!(cbor_len(ext));
                 let m = ext.as_map();
+                let first_bool = ["mc-bool", "mc-then-none", "none-then-mc"].contains(&case["ext"].as_str().unwrap());
+                let either = ["mc-then-ga", "ga-then-empty"].contains(&case["ext"].as_str().unwrap());
                 e["extok"] = json!(m.map(|m| m.len() == 1 && m[0].0.as_text() == Some("hmac-secret")
-                    && (if case["ext"] == "mc-bool" { m[0].1.as_bool() == Some(true) } else { m[0].1.as_bytes().map(|b| b.len()) == Some(64) })).unwrap_or(false));
+                    && ((first_bool || either) && m[0].1.as_bool() == Some(true) || (!first_bool || either) && m[0].1.as_bytes().map(|b| b.len()) == Some(64))).unwrap_or(false));
             }
         }
         // round trip
